@@ -14,33 +14,33 @@ import (
 type PlanFunc func(idx int, e *Entry, seed int32) (request bool, basis []byte, blockLen, strongLen int)
 
 type PullOpts struct {
-	Daemon    bool
-	Module    string   // daemon: module name for the module line
-	Args      []string // server argument lines (daemon) – must describe the same options as List
-	Negotiate bool     // command mode: exchange protocol versions
-	List      ListOpts
-	Filters   []string
-	DryRun    bool
-	Plan      PlanFunc
-	MaxData   int64
+	Daemon         bool
+	Module         string   // daemon: module name for the module line
+	Args           []string // server argument lines (daemon) – must describe the same options as List
+	Negotiate      bool     // command mode: exchange protocol versions
+	List           ListOpts
+	Filters        []string
+	DryRun         bool
+	Plan           PlanFunc
+	MaxData        int64
 	ServerIsSender bool // expect statistics at the end (true for server-side senders)
 	// AsServer: the reference receiver is the server and the real party is a
 	// pushing client (daemon or command mode).
-	AsServer   bool
-	ServerSeed int32
-	ReadFilter bool // the pushing client sends a filter list first (--delete)
+	AsServer     bool
+	ServerSeed   int32
+	ReadFilter   bool // the pushing client sends a filter list first (--delete)
 	OptsFromArgs bool
 }
 
 type FileResult struct {
-	Idx   int
-	Entry Entry
-	Req   Request
-	Reply *Reply
-	Basis []byte
-	Data  []byte // reconstructed
+	Idx      int
+	Entry    Entry
+	Req      Request
+	Reply    *Reply
+	Basis    []byte
+	Data     []byte // reconstructed
 	ApplyErr error
-	SumOK bool
+	SumOK    bool
 }
 
 type PullResult struct {
@@ -205,15 +205,15 @@ type AnswerFunc func(sortedIdx int, e *Entry, data []byte, rq *Request, seed int
 
 type SendOpts struct {
 	// Role
-	Server    bool // we are the server (read filter list first, send stats at the end)
-	Daemon    bool // daemon handshake (server: DaemonServerHandshake; client: DaemonClientHandshake)
-	Module    string
-	Args      []string // client side: argument lines sent to the real daemon
-	Negotiate bool
-	Seed      int32 // server side: the seed we announce
-	DryRun    bool
-	ReadFilters bool // read a filter list before sending the file list (server sender: always true)
-	WriteFilters []string // client sender with --delete: send a filter list first
+	Server         bool // we are the server (read filter list first, send stats at the end)
+	Daemon         bool // daemon handshake (server: DaemonServerHandshake; client: DaemonClientHandshake)
+	Module         string
+	Args           []string // client side: argument lines sent to the real daemon
+	Negotiate      bool
+	Seed           int32 // server side: the seed we announce
+	DryRun         bool
+	ReadFilters    bool     // read a filter list before sending the file list (server sender: always true)
+	WriteFilters   []string // client sender with --delete: send a filter list first
 	SendFilterList bool
 
 	List    ListOpts
@@ -229,17 +229,28 @@ type SendOpts struct {
 	OptsFromArgs bool
 	// StopAfterList closes after the file list (hostile truncation is done by mutation instead)
 	MaxRequests int
+	// Unsolicited, if set, returns replies that are sent right after the file
+	// list although nobody asked for them (a hostile sender).
+	Unsolicited func(sorted []Entry, seed int32) []Unsol
+}
+
+// Unsol is a reply nobody requested.
+type Unsol struct {
+	Idx  int32
+	Head SumHead
+	Toks []Tok
+	Sum  [16]byte
 }
 
 type SendResult struct {
-	Module   string
-	Args     []string
-	Status   string
-	Filters  []string
-	Seed     int32
-	Sorted   []Entry
-	Requests []*Request
-	Stage    string
+	Module     string
+	Args       []string
+	Status     string
+	Filters    []string
+	Seed       int32
+	Sorted     []Entry
+	Requests   []*Request
+	Stage      string
 	GotGoodbye bool
 }
 
@@ -297,6 +308,14 @@ func Send(w *Wire, o SendOpts) (res *SendResult, err error) {
 	sorted := append([]Entry(nil), o.Entries...)
 	sort.SliceStable(sorted, func(i, j int) bool { return bytes.Compare([]byte(sorted[i].Name), []byte(sorted[j].Name)) < 0 })
 	res.Sorted = sorted
+	if o.Unsolicited != nil {
+		for _, u := range o.Unsolicited(sorted, res.Seed) {
+			w.WriteReply(u.Idx, u.Head, u.Toks, u.Sum)
+		}
+		if err = w.Flush(); err != nil {
+			return res, err
+		}
+	}
 	res.Stage = "transfer"
 	phase := 0
 	for {
